@@ -4,6 +4,7 @@ import DaeVerif.C13.Keys
 import DaeVerif.C13.TQ
 import DaeVerif.C13.EP
 import DaeVerif.C13.EPC
+import DaeVerif.C13.Route
 /-!
 # C13 — executable models (core Lean only)
 
@@ -12,5 +13,6 @@ import DaeVerif.C13.EPC
 * `Keys`    — (d, pure part) endpoint-key choice (`udp_flow.go`)
 * `TQ`      — (a) per-flow task queues as an interleaving transition system (`udp_task_pool.go`)
 * `EP`      — (d) endpoint pool life cycle (`udp_endpoint_pool.go`), sequential specification
+* `Route`   — (d) which endpoint carries a packet: the endpoint part of `handlePkt` (`udp.go`)
 * `EPC`     — (d) the lock structure of `GetOrCreate` for one key (transition system, with its invariant)
 -/
